@@ -186,6 +186,19 @@ let marshal_hex (i : inner_state) : string =
     | None -> "PANIC"
     | Some b -> hex_of_bytes b
 
+(* The extracted functions are not tail recursive (firstn, app, take_exact ...): a
+   700 kB fixture needs more than the default 8 MB stack.  Re-execute once under
+   a larger stack limit. *)
+let () =
+  match Sys.getenv_opt "WIREX_STACK" with
+  | Some _ -> ()
+  | None ->
+    let q = Filename.quote in
+    let cmd = Printf.sprintf
+        "ulimit -s unlimited 2>/dev/null || ulimit -s 4000000 2>/dev/null; WIREX_STACK=1 exec %s %s %s %s"
+        (q Sys.executable_name) (q Sys.argv.(1)) (q Sys.argv.(2)) (q Sys.argv.(3)) in
+    exit (Sys.command cmd)
+
 (* ---------- main loop ---------- *)
 let () =
   let mode = Sys.argv.(1) in
@@ -204,7 +217,7 @@ let () =
          let m = read_slim next in
          let stream = (match split_ws (next ()) with ["X"; h] -> bytes_of_hex h | _ -> failwith "X expected") in
          (match split_ws (next ()) with ["E"] -> () | _ -> failwith "E expected");
-         pr "wf %b\n" (wf_slim m);
+         pr "wf %b\n" (wf_msg m);
          pr "ser %s\n" (marshal_hex (IMsg m));
          pr "size %s\n" (hex_of_n (marshal_size m));
          let body = (match read_header stream with
